@@ -158,3 +158,19 @@ Example override_examples :
   set_resolve false (ex_cfg 0) no_json (mkReq (path (B "ghost") []) [] [] [ supd (B "t1") [el (B "sys"); el (B "name")] (B "x") ]
                                               [ ExtOverrides true [ (B "ghost", (B "devicesim", B "1.0.0")) ] ]) = Err CNotFound.
 Proof. repeat split; try (vm_compute; reflexivity). eexists. vm_compute. reflexivity. Qed.
+
+(* ---------------- the effective path is the prefix followed by the path whichever field carries them: a prefix (or path)
+   given in the deprecated gNMI 0.3 `element` form resolves exactly as the same text given as `elem` *)
+Definition element_req : request :=
+  mkReq (mkPath (B "t1") [] [B "ifs"; B "if[name=eth0]"]) [ mkPath [] [] [B "name"] ] []
+        [ supd (B "") [el (B "descr")] (B "d") ] [].
+
+Example element_prefix_example :
+  set_resolve false (ex_cfg 0) no_json element_req =
+  set_resolve false (ex_cfg 0) no_json
+    (mkReq (path (B "t1") [el (B "ifs"); elk (B "if") [(B "name", B "eth0")]]) [ path [] [el (B "name")] ] []
+           [ supd (B "") [el (B "descr")] (B "d") ] []) /\
+  set_resolve false (ex_cfg 0) no_json element_req =
+  Ok (mkTx [ (B "t1", [ (B "/ifs/if[name=eth0]/descr", CUpd (mkTv 1 (B "d"))); (B "/ifs/if[name=eth0]", CDel) ]) ]
+           [ (B "t1", (B "devicesim", B "1.0.0")) ]).
+Proof. split; vm_compute; reflexivity. Qed.
